@@ -600,18 +600,30 @@ impl Compactor {
                 status: CompactionStatus::InProgress,
                 created_at: Some(chrono::Utc::now().timestamp()),
             };
-            self.metadata.create_compaction_job(job.clone()).await?;
+            // Merge chunks and publish the result; every failure in here must still
+            // release the lease and stop its renewal below.
+            let outcome: Result<String> = async {
+                self.metadata.create_compaction_job(job.clone()).await?;
+                let target = self.merge_chunks(&group, Level::L0).await?;
+                self.metadata
+                    .complete_compaction_with_target(&group, &target)
+                    .await?;
+                Ok(target.path)
+            }
+            .await;
 
-            // Merge chunks
-            match self.merge_chunks(&group, Level::L0).await {
+            match outcome {
                 Ok(target_path) => {
-                    self.metadata
-                        .complete_compaction(&group, &target_path)
-                        .await?;
-                    self.metadata
+                    if let Err(e) = self
+                        .metadata
                         .update_compaction_status(&job.id, CompactionStatus::Completed)
-                        .await?;
-                    self.metadata.complete_lease(&lease.lease_id).await?;
+                        .await
+                    {
+                        warn!(error = %e, "Failed to mark compaction job completed");
+                    }
+                    if let Err(e) = self.metadata.complete_lease(&lease.lease_id).await {
+                        warn!(error = %e, "Failed to complete compaction lease");
+                    }
 
                     // Schedule source chunks for deletion
                     for path in &group {
@@ -630,10 +642,16 @@ impl Compactor {
                     .increment(1);
                 }
                 Err(e) => {
-                    self.metadata
+                    if let Err(e) = self
+                        .metadata
                         .update_compaction_status(&job.id, CompactionStatus::Failed)
-                        .await?;
-                    self.metadata.fail_lease(&lease.lease_id).await?;
+                        .await
+                    {
+                        warn!(error = %e, "Failed to mark compaction job failed");
+                    }
+                    if let Err(e) = self.metadata.fail_lease(&lease.lease_id).await {
+                        warn!(error = %e, "Failed to release compaction lease");
+                    }
                     error!("L0 compaction failed: {}", e);
                     counter!(
                         "cardinalsin_compaction_jobs_total",
@@ -728,18 +746,32 @@ impl Compactor {
                 status: CompactionStatus::InProgress,
                 created_at: Some(chrono::Utc::now().timestamp()),
             };
-            self.metadata.create_compaction_job(job.clone()).await?;
             let level_label = level.to_string();
 
-            match self.merge_chunks(&group, Level::L(level)).await {
+            // Merge chunks and publish the result; every failure in here must still
+            // release the lease and stop its renewal below.
+            let outcome: Result<String> = async {
+                self.metadata.create_compaction_job(job.clone()).await?;
+                let target = self.merge_chunks(&group, Level::L(level)).await?;
+                self.metadata
+                    .complete_compaction_with_target(&group, &target)
+                    .await?;
+                Ok(target.path)
+            }
+            .await;
+
+            match outcome {
                 Ok(target_path) => {
-                    self.metadata
-                        .complete_compaction(&group, &target_path)
-                        .await?;
-                    self.metadata
+                    if let Err(e) = self
+                        .metadata
                         .update_compaction_status(&job.id, CompactionStatus::Completed)
-                        .await?;
-                    self.metadata.complete_lease(&lease.lease_id).await?;
+                        .await
+                    {
+                        warn!(error = %e, "Failed to mark compaction job completed");
+                    }
+                    if let Err(e) = self.metadata.complete_lease(&lease.lease_id).await {
+                        warn!(error = %e, "Failed to complete compaction lease");
+                    }
 
                     // Schedule source chunks for deletion
                     for path in &group {
@@ -758,10 +790,16 @@ impl Compactor {
                     .increment(1);
                 }
                 Err(e) => {
-                    self.metadata
+                    if let Err(e) = self
+                        .metadata
                         .update_compaction_status(&job.id, CompactionStatus::Failed)
-                        .await?;
-                    self.metadata.fail_lease(&lease.lease_id).await?;
+                        .await
+                    {
+                        warn!(error = %e, "Failed to mark compaction job failed");
+                    }
+                    if let Err(e) = self.metadata.fail_lease(&lease.lease_id).await {
+                        warn!(error = %e, "Failed to release compaction lease");
+                    }
                     error!(level = level, "Level compaction failed: {}", e);
                     counter!(
                         "cardinalsin_compaction_jobs_total",
@@ -790,8 +828,12 @@ impl Compactor {
         Ok(())
     }
 
-    /// Merge a group of chunks into one
-    async fn merge_chunks(&self, paths: &[String], level: Level) -> Result<String> {
+    /// Merge a group of chunks into one uploaded file; returns the metadata to register it with
+    async fn merge_chunks(
+        &self,
+        paths: &[String],
+        level: Level,
+    ) -> Result<crate::ingester::ChunkMetadata> {
         // Read and merge chunks
         let merged_batch = self.merger.merge(paths).await?;
 
@@ -805,11 +847,45 @@ impl Compactor {
         let target_path = self.generate_compacted_path(level);
 
         // Upload to object storage
+        let size_bytes = parquet_bytes.len() as u64;
         self.object_store
             .put(&target_path.clone().into(), parquet_bytes.into())
             .await?;
 
-        Ok(target_path)
+        let (min_timestamp, max_timestamp) = Self::timestamp_bounds(&sorted)?;
+        Ok(crate::ingester::ChunkMetadata {
+            path: target_path,
+            min_timestamp,
+            max_timestamp,
+            row_count: sorted.num_rows() as u64,
+            size_bytes,
+        })
+    }
+
+    /// Minimum and maximum of a batch's timestamp column (either supported type)
+    fn timestamp_bounds(batch: &arrow_array::RecordBatch) -> Result<(i64, i64)> {
+        use arrow_array::cast::AsArray;
+        use arrow_array::types::{Int64Type, TimestampNanosecondType};
+
+        let col = batch
+            .column_by_name("timestamp")
+            .ok_or_else(|| Error::InvalidSchema("Missing timestamp column".into()))?;
+        if let Some(ts) = col.as_primitive_opt::<TimestampNanosecondType>() {
+            return Ok((
+                arrow::compute::min(ts).unwrap_or(0),
+                arrow::compute::max(ts).unwrap_or(0),
+            ));
+        }
+        if let Some(ts) = col.as_primitive_opt::<Int64Type>() {
+            return Ok((
+                arrow::compute::min(ts).unwrap_or(0),
+                arrow::compute::max(ts).unwrap_or(0),
+            ));
+        }
+        Err(Error::InvalidSchema(format!(
+            "Timestamp column must be Timestamp(Nanosecond) or Int64, got {:?}",
+            col.data_type()
+        )))
     }
 
     /// Garbage collect old chunks with grace period
